@@ -394,6 +394,42 @@ def check_jsonld_raw(items, ctx=None):
     return fails
 
 
+def check_str_subclasses():
+    """Values that are str subclasses - rdflib.URIRef (what Graph.namespaces() yields) compares unequal to the plain string it
+    holds - denote the same maps as the plain strings."""
+    import rdflib
+
+    fails = []
+    U = rdflib.URIRef
+    plain = {"b": "http://x/", "a": "http://x/", "c": "http://y/"}
+    for label, mixed in (("URIRef-values", {"b": U("http://x/"), "a": "http://x/", "c": U("http://y/")}), ("URIRef-values-2", {"b": "http://x/", "a": U("http://x/"), "c": "http://y/"}),
+                         ("all-URIRef", {k: U(v) for k, v in plain.items()})):
+        for order in (list(mixed), list(mixed)[::-1]):
+            data = {k: mixed[k] for k in order}
+            where = f"upgrade_prefix_map({ {k: (('URIRef(%r)' % str(v)) if isinstance(v, U) else v) for k, v in data.items()} })"
+            try:
+                recs = curies.upgrade_prefix_map(data)
+                conv = Converter(recs)
+            except Exception as e:  # noqa
+                fails.append((f"upgrade_prefix_map/records-rejected-by-strict-converter/{label}", f"{where}: {type(e).__name__}: {str(e)[:100]}"))
+                continue
+            want = Converter(curies.upgrade_prefix_map({k: plain[k] for k in order}))
+            if record_set(conv) != record_set(want):
+                fails.append((f"upgrade_prefix_map/records-differ-from-denotation/{label}", f"{where}: {sorted(map(repr, record_set(conv)))}, with plain strings {sorted(map(repr, record_set(want)))}"))
+    bij = {"a": U("http://x/"), "c": U("http://y/")}
+    for name, make in (("from_prefix_map", lambda: Converter.from_prefix_map(bij)), ("from_reverse_prefix_map", lambda: Converter.from_reverse_prefix_map({v: k for k, v in bij.items()})),
+                       ("from_priority_prefix_map", lambda: Converter.from_priority_prefix_map({k: [v, U(str(v) + "2")] for k, v in bij.items()}))):
+        try:
+            conv = make()
+        except Exception as e:  # noqa
+            fails.append((f"{name}/raises", f"{name} with rdflib.URIRef values: {type(e).__name__}: {str(e)[:100]}"))
+            continue
+        for k, v in bij.items():
+            if conv.expand(k + ":1") != str(v) + "1" or conv.compress(str(v) + "1") != k + ":1":
+                fails.append((f"{name}/listed-pair-does-not-expand", f"{name} with rdflib.URIRef values: expand({k + ':1'!r}) = {conv.expand(k + ':1')!r}"))
+    return fails
+
+
 def token_cases():
     """Breadth sweep (mc/sweeps.py): every token inside and as the whole of a prefix / URI prefix, through every loader."""
     from .. import sweeps
@@ -534,6 +570,9 @@ def run_unit(unit, ctx):
     if unit["kind"] == "paths":
         for sig, msg in check_paths(ctx)[:3]:
             ctx.violation("C13/" + sig, msg, {"kind": "paths", "data": []})
+        ctx.count("str_subclass_checks")
+        for sig, msg in check_str_subclasses()[:3]:
+            ctx.violation("C13/" + sig, msg, {"kind": "str-subclasses", "data": []})
         return
     for i, (kind, data) in enumerate(cases(unit)):
         if "of" in unit and i % unit["of"] != unit["part"]:
@@ -557,6 +596,8 @@ def run_unit(unit, ctx):
 def replay(case):
     if case["kind"] == "paths":
         return [("C13/" + s, m) for s, m in check_paths(None)]
+    if case["kind"] == "str-subclasses":
+        return [("C13/" + s, m) for s, m in check_str_subclasses()]
     data = [tuple(tuple(y) if isinstance(y, list) and case["kind"] == "priority" else y for y in x) for x in case["data"]]
     return [("C13/" + s, m) for s, m in CHECKS[case["kind"]](data, None)]
 
